@@ -12,4 +12,8 @@ mod c20_pattern;
 #[cfg(kani)]
 mod c12_path;
 #[cfg(kani)]
+mod c12_bucket;
+#[cfg(kani)]
+mod c12_host;
+#[cfg(kani)]
 mod selftest;
